@@ -37,8 +37,22 @@ def make_decider(cfg):
         pass
     rec = R()
     dec.subscribe(rec)
+
+    class Boom(BoboDeciderSubscriber):
+        """a later subscriber (e.g. the distributed component with a full outgoing queue) that may refuse a change"""
+        armed = False
+
+        def on_decider_update(self, completed, halted, updated, local):
+            if self.armed:
+                raise SubscriberRefused("scripted")
+    dec.verif_boom = Boom()
+    dec.subscribe(dec.verif_boom)
     dec.verif_textdata = bool(mode and mode.get("typed"))
     return dec, rec
+
+
+class SubscriberRefused(Exception):
+    pass
 
 
 def enc_state(dec):
@@ -53,6 +67,8 @@ def apply_op(dec, rec, op):
         dec.on_receiver_update(PL.make_event(op[1], getattr(dec, "verif_textdata", False)))
         try:
             dec.update()
+        except SubscriberRefused:  # a subscriber refused the change: the caller carries on; the decider's own state
+            pass                   # (runs, finished-run memory) must be what it is when every subscriber returns
         except Exception as ex:   # BoboDeciderError (duplicate run id) escapes update()
             return [-9, 3], None
         tag = -7
@@ -61,6 +77,8 @@ def apply_op(dec, rec, op):
         try:
             dec.on_distributed_update([PL.make_ser(r) for r in n["comp"]], [PL.make_ser(r) for r in n["halt"]],
                                       [PL.make_ser(r) for r in n["upd"]])
+        except SubscriberRefused:
+            pass
         except Exception as ex:   # a well-formed remote note must be applied, never refused with an exception
             dec.verif_error = "%s: %s" % (type(ex).__name__, ex)
             return [-9, 4], None
